@@ -18,3 +18,4 @@ open Neutrino.CFHeaders
 #print axioms C03_checkpoints_tip_counterexample
 #print axioms C03_checkpoints_resolve
 #print axioms C03_belongs_stale_batch
+#print axioms C03_response_exact
